@@ -94,14 +94,14 @@ TD19 = [('tdigest.rs', 'c19_td_clear_is_fresh', 'bounded(2 centroids + 1 backlog
 PROPS = {}
 
 PROPS['C01'] = {
-    'level': 'other',
-    'verus_units': ['hashiter', 'bloom', 'cuckoo'],
+    'level': 'proof',
+    'verus_units': ['hashiter', 'bloom', 'cuckoo', 'quotient_exact'],
     'kani': {'quick': HASHITER_K + BLOOM_K + CUCKOO_K + QF_QUICK + QF_UNION_QUICK, 'thorough': HASHITER_K_THOROUGH + QF_THOROUGH + QF_UNION_THOROUGH},
-    'explanation': 'Bloom and Cuckoo: Verus proofs (unbounded in sizes, hashers, eviction outcomes) of exact whole-view contracts on the real insert/query/delete/union text + history lemmas (bits only grow; every class covers its live elements). Quotient filter: Kani one-step harnesses from EVERY canonical state of a small table (bounded in table size only, unbounded in history length). HashSet reference implementation: five delegations to std, not verified.',
+    'explanation': 'Bloom and Cuckoo: Verus proofs (unbounded in sizes, hashers, eviction outcomes) of exact whole-view contracts on the real insert/query/delete/union text + history lemmas (bits only grow; every class covers its live elements). Quotient filter: Verus proof, unbounded in table size and history (unit quotient_exact): the canonical-layout invariant (ghost per-slot displacement d) is inductive over the real scan / insert_internal / insert / union / clear text; the abstract set mem() is independent of the choice of d (layout uniqueness lemma); query == mem; insert adds exactly the class and keeps every other answer; union Ok => exactly the union of both sets; Err => nothing changes; client step functions state the property over these contracts. The Kani one-step harnesses from EVERY canonical state of a small table remain as counterexample engine. HashSet reference implementation: five delegations to std, not verified.',
     'trusted_base': COMMON_TRUST + [HASH_TRUST, INTVEC_TRUST, FBS_TRUST, PANIC_ASSERTS,
                                     'verus/prelude/rng.rs: rand::Rng as an arbitrary-value source (gen_range in [a,b), gen::<bool> arbitrary)',
                                     'HashIterBuilder::setup_f: `(0..k).map(|i| {BODY}).collect()` rewritten to the push loop it denotes (BODY verbatim) and verified; HashIter no-overflow precondition m <= 2^32'],
-    'assumptions': ['BuildHasher is stable (same words -> same hash) and `==` on BuildHashers is structural', 'quotient filter part is a bounded stand-in (table size)', 'std::collections::HashSet behaves as documented (compat.rs is not verified)'],
+    'assumptions': ['BuildHasher is stable (same words -> same hash) and `==` on BuildHashers is structural', 'std::collections::HashSet behaves as documented (compat.rs is not verified)', 'induction over histories is by the re-established invariant inv() (each public operation requires and ensures it); the induction itself is not a mechanised statement'],
     'not_decided': ['HashSet compat implementation (delegations to std)', 'BloomFilter with m > 2^32 bits (u64 overflow of h1 + i*h2 + f is excluded by precondition)'],
 }
 
@@ -116,12 +116,12 @@ PROPS['C02'] = {
 }
 
 PROPS['C06'] = {
-    'level': 'other',
-    'verus_units': ['bloom', 'cuckoo', 'quotient', 'cms', 'hll', 'lemma_cms'],
+    'level': 'proof',
+    'verus_units': ['bloom', 'cuckoo', 'quotient', 'quotient_exact', 'cms', 'hll', 'lemma_cms'],
     'kani': {'quick': BLOOM_K[1:] + CMS_MERGE[:1] + HLL_MERGE + QF_UNION_QUICK, 'thorough': CMS_MERGE[1:] + QF_UNION_THOROUGH},
-    'explanation': 'merge contracts over the abstract view, Verus (unbounded): Bloom union = bitwise or, Cuckoo union = class-wise sum of multisets with full rollback on Err, CMS merge = cell-wise checked sum, HLL merge = register-wise max, Quotient union Err => restored. Bounded (Kani): Quotient union Ok => canonical layout of A u B, Err iff it does not fit. Commutativity/associativity/idempotence follow from or / + / max / set union on the views.',
+    'explanation': 'merge contracts over the abstract view, Verus (unbounded): Bloom union = bitwise or, Cuckoo union = class-wise sum of multisets with full rollback on Err, CMS merge = cell-wise checked sum, HLL merge = register-wise max, Quotient union Err => restored, Ok => abstract set == union of both abstract sets and the canonical-layout invariant holds again (unit quotient_exact: cluster decoding with the pending-quotient queue proved against the counting lemma; `pop_front().unwrap()` and the shift-chain panic proved unreachable). Bounded (Kani, counterexample engine): Quotient union Ok => canonical layout of A u B, Err iff it does not fit. Commutativity/associativity/idempotence follow from or / + / max / set union on the views.',
     'trusted_base': COMMON_TRUST + [HASH_TRUST, INTVEC_TRUST, FBS_TRUST, PANIC_ASSERTS],
-    'assumptions': ['"other operand unchanged" is the &Self borrow; the five types hold no interior mutability', 'the Ok-case of the quotient filter union is a bounded stand-in (table size)'],
+    'assumptions': ['"other operand unchanged" is the &Self borrow; the five types hold no interior mutability', 'quotient filter: "Err iff the union does not fit" is only checked bounded (Kani); the Verus contract proves Err => restored and Ok => exact union'],
     'not_decided': [],
 }
 
@@ -183,13 +183,13 @@ PROPS['C12'] = {
 }
 
 PROPS['C13'] = {
-    'level': 'other',
-    'verus_units': ['quotient'],
+    'level': 'proof',
+    'verus_units': ['quotient', 'quotient_exact'],
     'kani': {'quick': QF_QUICK + QF_QR + QF_UNION_QUICK[-1:], 'thorough': QF_THOROUGH + QF_UNION_THOROUGH[:1]},
-    'explanation': 'Verus (unbounded): calc_quotient_remainder returns exactly the low bq+br hash bits split at br (bit-vector proof for all bq, br), Err(Full) only at len() == 2^bq and never below, Ok(false)/Err leave the state untouched, Ok(true) increments len, every index stays in range. Exact membership (the canonical-layout invariant) is bounded: Kani one-step contract harnesses: for EVERY set S of fingerprint classes of a small table (state = canonical layout enc(S), encoder written independently of the implementation) and every fingerprint: scan answers membership in S, insert_internal returns Ok(false)/Err/Ok(true) exactly as stated and the resulting state EQUALS enc(S + {(q,r)}) on all slots. History length is unbounded (induction over one-step from arbitrary state); table size is bounded. calc_quotient_remainder: complete over all 64-bit hashes for four (bq,br).',
-    'trusted_base': COMMON_TRUST + ['the 40-line canonical-layout encoder in kani/harness/filters__quotientfilter.rs (independent oracle)'],
-    'assumptions': ['table sizes 2 slots (quick) and 4 slots (thorough) only'],
-    'not_decided': ['tables with more than 4 slots (an unbounded proof needs the canonical-layout invariant as an inductive Verus invariant over scan and the swap chain)'],
+    'explanation': 'Verus proof, unbounded in table size, remainder width and history (unit quotient_exact, 100+ obligations): the canonical layout is captured by a ghost per-slot displacement d (slot_ok: shifted <=> d > 0, continuation <=> same home as predecessor, remainders strictly increasing inside a run; occupied <=> some element has that home). Key lemma: along a cluster the number of run starts equals the number of occupied buckets up to the home (lemma_runs), which makes scan()\'s counting walk find exactly the run of the quotient; the layout d is unique (lemma_canon_unique), so the abstract set mem(v, q, r) is well defined. Proved on the real text: scan: present == mem, plus the local insertion-point facts; insert_internal: Ok(false) iff known (state unchanged), Err iff new and len == 2^bq (state unchanged), Ok(true) iff new below capacity: len + 1, the new state is canonical and mem\' == mem + {(q, r)} for EVERY class (nothing lost, nothing invented), "infinite loop detected" unreachable; query == mem of the element\'s class; len == number of used slots, and distinct used slots hold distinct classes (lemma_class_inj); clear / constructor => empty set with the full invariant; union Ok => exact set union. calc_quotient_remainder returns exactly the low bq+br hash bits split at br (bit-vector proof). Client step functions (step_insert_query, step_fresh, step_clear_query, step_union_query) state the property over these contracts for one step of an arbitrary history. Kani one-step harnesses against an independent canonical-layout encoder stay as counterexample engine (bounded: 2 slots quick, 4 slots thorough).',
+    'trusted_base': COMMON_TRUST + [HASH_TRUST, INTVEC_TRUST, FBS_TRUST, 'vstd VecDeque push_back/pop_front specs', 'the 40-line canonical-layout encoder in kani/harness/filters__quotientfilter.rs (independent oracle of the bounded cross-check only)'],
+    'assumptions': ['induction over histories is by the re-established invariant inv(): every public operation requires and ensures it; the induction itself is not a mechanised statement', 'len() == number of DISTINCT classes: proved as len == number of used slots + injectivity of slot -> class; no cardinality-of-a-set statement is mechanised'],
+    'not_decided': [],
 }
 
 PROPS['C14'] = {
@@ -248,7 +248,7 @@ PROPS['C18'] = {
 
 PROPS['C19'] = {
     'level': 'other',
-    'verus_units': ['bloom', 'cuckoo', 'quotient', 'cms', 'hll', 'reservoir', 'lossy', 'cmsheap'],
+    'verus_units': ['bloom', 'cuckoo', 'quotient', 'quotient_exact', 'cms', 'hll', 'reservoir', 'lossy', 'cmsheap'],
     'kani': {'quick': TD19 + CMS_EMPTY + CMS_MERGE[:1] + HLL_MERGE + BLOOM_K[1:] + [('reservoirsampling.rs', 'c19_reservoir_clone_mid_fillup', 'bounded(k=4, one concrete history): clone during fill-up')] + [('filters__quotientfilter.rs', 'c19_qf_clear_is_fresh', 'bounded(4 slots, 16-bit remainders; arbitrary array contents)'),
                                                                   ('filters__cuckoofilter.rs', 'c19_cuckoo_clear_is_fresh', 'bounded(2x2 table)')],
              'thorough': []},
@@ -281,14 +281,14 @@ def _mt(text, note, technique):
     return {'text': text, 'note': note, 'technique': technique}
 
 MANIFEST_TEXT = {
-    'C01': _mt('Bloom + Cuckoo: unbounded Verus proofs of whole-view insert/query/delete/union contracts plus history lemmas; Quotient: bounded Kani one-step harnesses from every canonical state. Mixed, therefore "other".',
-               'Trusted: hashing model (stable BuildHasher), IntVector/FixedBitSet stubs, HashIter::setup_f contract; quotient part bounded by table size; HashSet compat unverified.',
-               'Verus contracts on extracted real functions (unbounded) + Kani contract harnesses (bounded stand-in for QuotientFilter)'),
+    'C01': _mt('Unbounded Verus proofs for all three filters: Bloom + Cuckoo whole-view insert/query/delete/union contracts plus history lemmas; Quotient: canonical-layout invariant inductive over the real scan/insert_internal/union/clear, query == abstract membership, insert/union add exactly and lose nothing. Kani harnesses as counterexample engine.',
+               'Trusted: hashing model (stable BuildHasher), IntVector/FixedBitSet/VecDeque stubs, HashIter::setup_f rewrite; HashSet compat (five delegations to std) not verified; induction over histories is by re-established invariants.',
+               'Verus contracts on extracted real functions (unbounded) + Kani contract harnesses (counterexample engine)'),
     'C02': _mt('Unbounded Verus proofs of add_n/add/query_point/merge/clear/is_empty/constructor on the real text (all w, d, counter types, hashers) plus the history lemma; Kani harnesses as counterexample engine.',
                'Trusted: hashing model, the Counter contract trait standing for the num_traits bounds, iterator chains rewritten to the loops they denote (std iterator semantics), overflow panics excluded by precondition.',
                'Verus contracts on extracted real functions + history lemma; Kani contract harnesses as counterexample engine'),
-    'C06': _mt('merge contracts over abstract views: unbounded Verus proofs for Bloom, Cuckoo, CMS, HLL (and the Err case of the quotient filter); the Ok case of the quotient filter union is a bounded Kani check. Mixed, therefore "other".',
-               'Trusted: stubs, hashing model, iterator-chain rewrites; QF union Ok-case bounded by table size.', 'Verus contracts on extracted real functions + Kani contract harnesses (QF union, bounded)'),
+    'C06': _mt('merge contracts over abstract views: unbounded Verus proofs for Bloom, Cuckoo, CMS, HLL and the quotient filter (Ok => exact union of the abstract sets, Err => restored). Kani harnesses as counterexample engine.',
+               'Trusted: stubs, hashing model, iterator-chain rewrites; QF "Err iff it does not fit" only bounded (Kani).', 'Verus contracts on extracted real functions + Kani contract harnesses (counterexample engine)'),
     'C09': _mt('Verus proof that the real LossyCounter::add preserves the Lossy Counting invariant for every ghost true-count function; guarantee lemmas on top.',
                'Trusted: vstd HashMap/entry specs, std drain/filter/collect semantics (predicate text captured from source), f64 formulas for epsilon/bound taken in real arithmetic. Harmonic table bound not decided.',
                'Verus contracts on the extracted real add() + guarantee lemmas'),
@@ -300,8 +300,8 @@ MANIFEST_TEXT = {
                'Verus contracts on extracted real functions + Kani contract harnesses'),
     'C12': _mt('Unbounded Verus proofs for both filters: every failing insert/union leaves (cuckoo: restores) every array and the counter; Kani harnesses as counterexample engine.',
                'Trusted: IntVector/FixedBitSet stubs, hashing/RNG models; two canonical-layout-dependent panic sites of the quotient filter modelled as diverging.', 'Verus contracts on extracted real functions + Kani contract harnesses'),
-    'C13': _mt('Bounded: Kani one-step harnesses from every canonical state of 2- and 4-slot tables against an independent canonical-layout encoder; calc_quotient_remainder complete over all hashes.',
-               'Bounded in table size; encoder is the oracle.', 'Kani contract harnesses (bounded model checking of the real code)'),
+    'C13': _mt('Unbounded Verus proof: the canonical-layout invariant (ghost displacement per slot, run-counting lemma, layout uniqueness) is inductive over the real scan/insert_internal/insert/union/clear; query == abstract membership; Ok(true)/Ok(false)/Err exactly as stated; len counts used slots which hold distinct classes. Kani one-step harnesses against an independent encoder as counterexample engine.',
+               'Trusted: IntVector/FixedBitSet/VecDeque stubs, hashing model; history induction by re-established invariant; no mechanised set cardinality.', 'Verus contracts on extracted real functions + Kani contract harnesses (counterexample engine)'),
     'C14': _mt('Unbounded Verus proof that CuckooFilter is an exact multiset over fingerprint classes (eviction-chain invariant through all kicks).',
                'Trusted: IntVector stub, hashing/RNG models, 64-bit usize.', 'Verus contracts on extracted real functions'),
     'C15': _mt('Bounded: bit-precise Kani harnesses on the real quantile/cdf from arbitrary well-formed small digests.',
